@@ -468,3 +468,28 @@ M("C09", "acceptance-flags-crossed", "operators.py", "            if flag == 1:\
 # twins
 M("C09", "twin-omopso-for", "algorithm_swarm.py", "        it = 0\n        while it < self.options['max_population_number']:\n            offsprings = self.selector.select(individuals)\n\n            self.update_velocity(offsprings)\n            self.update_position(offsprings)\n            self.turbulence(offsprings, it)\n\n            self.evaluate(offsprings)\n\n            self.update_particle_best(offsprings)\n            self.update_global_best(offsprings)\n\n            # update individuals\n            individuals = offsprings\n\n            for individual in individuals:\n                # add to population\n                individual.population_id = it + 1\n                # append to problem\n                self.problem.individuals.append(individual)\n                # sync to datastore\n                self.problem.data_store.sync_individual(individual)\n\n            it += 1\n\n        t = time.time() - t_s\n        self.problem.logger.info(\"PSO: elapsed time: {} s\".format(t))\n\n        # sync changed individual informations\n        self.problem.data_store.sync_all()\n\n\nclass SMPSO",
   "        for it in range(self.options['max_population_number']):\n            offsprings = self.selector.select(individuals)\n\n            self.update_velocity(offsprings)\n            self.update_position(offsprings)\n            self.turbulence(offsprings, it)\n\n            self.evaluate(offsprings)\n\n            self.update_particle_best(offsprings)\n            self.update_global_best(offsprings)\n\n            individuals = offsprings\n\n            for individual in individuals:\n                individual.population_id = it + 1\n                self.problem.individuals.append(individual)\n                self.problem.data_store.sync_individual(individual)\n\n        t = time.time() - t_s\n        self.problem.data_store.sync_all()\n\n\nclass SMPSO", "H")
+
+# ---------------------------------------------------------------- C16
+M("C16", "dtlz2-sin-index", "benchmark_pareto.py", "                fi *= sin(x[m - i - 1] * pi / 2.)\n            gm = 0.\n", "                fi *= sin(x[m - i] * pi / 2.)\n            gm = 0.\n")
+M("C16", "dtlz3-sin-angle", "benchmark_pareto.py", "                fi *= sin(x[m - i - 1] * pi / 2.)\n            # gm = 0.", "                fi *= sin(x[m - i - 1] * pi)\n            # gm = 0.")
+M("C16", "dtlz4-cos-alpha", "benchmark_pareto.py", "fi *= cos(0.5 * x[j] ** alpha * pi)", "fi *= cos(0.5 * x[j] * pi)")
+M("C16", "dtlz2-product-range", "benchmark_pareto.py", "            for j in range(0, m - i - 1):\n                fi *= cos(0.5 * x[j] * pi)\n\n            if i > 0:\n                fi *= sin(x[m - i - 1] * pi / 2.)\n            gm = 0.\n", "            for j in range(0, m - i):\n                fi *= cos(0.5 * x[j] * pi)\n\n            if i > 0:\n                fi *= sin(x[m - i - 1] * pi / 2.)\n            gm = 0.\n")
+M("C16", "dtlz2-complement-guard", "benchmark_pareto.py", "            if i > 0:\n                fi *= sin(x[m - i - 1] * pi / 2.)\n            gm = 0.\n", "            if i > 1:\n                fi *= sin(x[m - i - 1] * pi / 2.)\n            gm = 0.\n")
+M("C16", "dtlz2-factor-twice", "benchmark_pareto.py", "            fi *= (1. + gm)\n            scores.append(fi)\n\n        return scores\n\n\nclass DTLZIII", "            fi *= (1. + gm)\n            fi *= (1. + gm)\n            scores.append(fi)\n\n        return scores\n\n\nclass DTLZIII")
+M("C16", "dtlz2-g-offset", "benchmark_pareto.py", "                gm += (x[len(x) - i - 1] - 0.5) ** 2.\n            fi *= (1. + gm)\n            scores.append(fi)\n\n        return scores\n\n\nclass DTLZIII", "                gm += (x[len(x) - i - 1] - 0.4) ** 2.\n            fi *= (1. + gm)\n            scores.append(fi)\n\n        return scores\n\n\nclass DTLZIII")
+M("C16", "dtlz2-g-wrong-vars", "benchmark_pareto.py", "                gm += (x[len(x) - i - 1] - 0.5) ** 2.\n            fi *= (1. + gm)\n            scores.append(fi)\n\n        return scores\n\n\nclass DTLZIII", "                gm += (x[i] - 0.5) ** 2.\n            fi *= (1. + gm)\n            scores.append(fi)\n\n        return scores\n\n\nclass DTLZIII")
+M("C16", "dtlz1-complement", "benchmark_pareto.py", "fi *= (1. - x[m - i - 1])", "fi *= (1. - x[m - i])")
+M("C16", "dtlz1-not-complement", "benchmark_pareto.py", "fi *= (1. - x[m - i - 1])", "fi *= (1. + x[m - i - 1])")
+M("C16", "dtlz1-factor", "benchmark_pareto.py", "        factor = 0.5 * (1 + g)\n", "        factor = (1 + g)\n")
+M("C16", "dtlz1-g-k", "benchmark_pareto.py", "        g = 100 * (k + g)\n", "        g = 100 * (k - 1 + g)\n")
+M("C16", "dtlz3-g-start", "benchmark_pareto.py", "            gm = float(k)\n", "            gm = 0.0\n")
+M("C16", "zdt1-g-constant", "benchmark_pareto.py", "constant = 9.0 / (len(x.vector) - 1)", "constant = 9.0 / len(x.vector)")
+M("C16", "zdt1-g-includes-x1", "benchmark_pareto.py", "g = sum(x.vector) - x.vector[0]", "g = sum(x.vector)")
+M("C16", "zdt1-h", "benchmark_pareto.py", "return 1.0 - sqrt(f / g)", "return 1.0 - (f / g) ** 2")
+M("C16", "zdt1-f2", "benchmark_pareto.py", "        f2 = h * g\n", "        f2 = h + g\n")
+M("C16", "biobj-f2", "benchmark_pareto.py", "f2 = (1 + individual.vector[1]) / individual.vector[0]", "f2 = (1 + individual.vector[1]) / (1 + individual.vector[0])")
+M("C16", "dtlz4-mapped-twice", "benchmark_pareto.py", "        x = x.vector\n        scores = []\n        for i in range(0, m):\n            fi = 1.0\n            for j in range(0, m - i - 1):\n                fi *= cos(0.5 * x[j] ** alpha * pi)\n\n            if i > 0:\n                fi *= sin(x[m - i - 1] ** alpha * pi / 2.)", "        x = x.vector\n        xa = [xi ** alpha for xi in x[:m - 1]]\n        scores = []\n        for i in range(0, m):\n            fi = 1.0\n            for j in range(0, m - i - 1):\n                fi *= cos(0.5 * xa[j] ** alpha * pi)\n\n            if i > 0:\n                fi *= sin(xa[m - i - 1] * pi / 2.)")
+# twins
+M("C16", "twin-dtlz2-angle-form", "benchmark_pareto.py", "                fi *= sin(x[m - i - 1] * pi / 2.)\n            gm = 0.\n", "                fi *= sin(0.5 * pi * x[m - i - 1])\n            gm = 0.\n", "H")
+M("C16", "twin-zdt1-order", "benchmark_pareto.py", "        return constant * g + 1.0", "        return 1.0 + g * constant", "H")
+M("C16", "twin-dtlz4-mapped", "benchmark_pareto.py", "        x = x.vector\n        scores = []\n        for i in range(0, m):\n            fi = 1.0\n            for j in range(0, m - i - 1):\n                fi *= cos(0.5 * x[j] ** alpha * pi)\n\n            if i > 0:\n                fi *= sin(x[m - i - 1] ** alpha * pi / 2.)", "        x = x.vector\n        xa = [xi ** alpha for xi in x[:m - 1]]\n        scores = []\n        for i in range(0, m):\n            fi = 1.0\n            for j in range(0, m - i - 1):\n                fi *= cos(0.5 * xa[j] * pi)\n\n            if i > 0:\n                fi *= sin(xa[m - i - 1] * pi / 2.)", "H")
